@@ -251,7 +251,7 @@ def simple(pid, genf, quick, thorough, rule, theorems, nontriv_rule, **kw):
 
 simple("C13", genhist.gen_graph_hist, 500, 8000,
        "graph histories: constructor (possibly refused) then up to 12/40 add_edge / add_edges / get_valence / remove_vertex requests, ~25% invalid (loop, non-positive multiplicity, unknown endpoint), both endpoint orders, repeated pairs; observables after every step: to_dict, every cached valence, total_valence, genus",
-       ["history_invariant", "constructed_wf", "genus_is_E_minus_V_plus_one", "accepted_add", "refused_add_unchanged", "addEdges_prefix", "removeVertex_wf"],
+       ["history_invariant", "constructed_wf", "genus_is_E_minus_V_plus_one", "accepted_add", "refused_add_unchanged", "addEdges_prefix", "removeVertex_wf", "remove_vertex_is_induced", "remove_vertex_valences"],
        "non-trivial: >=3 operations on >=2 vertices with an accepted constructor", maxops=(12, 40))
 simple("C05", genhist.gen_div_hist, 500, 8000,
        "divisor/configuration histories: up to 25/100 lend, borrow, set_fire, chip_transfer requests through CFDivisor and CFConfig (~20% invalid); observables after every step: every degree, cached total, is_effective",
@@ -386,7 +386,7 @@ def c04_generate(rng, tier):
 NONTRIVIAL_RULE["C04"] = "non-trivial: n>=3 with a multi-edge or cycle"
 PROPS["C04"] = {"generate": c04_generate, "strata": algo_strata, "nontrivial": algo_nontrivial,
                 "rule": "gonality() with/without strategies and cut-offs 0..n+1; single games and strategy tests on placements (also non-effective, wrong chip count, unknown opponent vertex); per-sink Dhar strategy tests and minimal-strategy search for every sink",
-                "theorems": ["playGame_exact", "strategyWorks_exact", "winnable_mono", "all_ones_wins", "computeGonality_exact", "gonality_unique", "dharTestStrategy_exact", "per_sink_search_exact", "minimal_strategies_exact"]}
+                "theorems": ["playGame_exact", "strategyWorks_exact", "winnable_mono", "all_ones_wins", "computeGonality_exact", "gonality_unique", "dharTestStrategy_exact", "per_sink_search_exact", "minimal_strategies_exact", "all_ones_wins"]}
 
 
 # ---- C07
@@ -650,7 +650,7 @@ PROPS["C10"] = {"generate": c10_generate, "judge": c10_judge,
                 "strata": lambda rec: [f"op={rec['scn']['op']}", f"n={rec['scn'].get('n')}"],
                 "nontrivial": lambda rec: (rec["scn"]["op"] in ("config", "div_hist") and rec["scn"]["n"] >= 3) or (rec["scn"]["op"] == "parking" and len(rec["scn"]["seq"]) >= 2) or rec["scn"]["op"] in ("superstable_count", "kn_parking", "parking_gen"),
                 "rule": "configurations on generated multigraphs with every subset of V-q as candidate firing set (out-degree, legality, superstability, comparison operators against equal copies / other graphs / other sinks); superstable count vs exact determinant of the library's reduced Laplacian; K_(n+1) superstables vs parking functions; all integer sequences over [0..n+1]^n with and without explicit n; generated lists and counts",
-                "theorems": ["legal_iff", "superstable_iff", "superstable_iff_burn_all", "cmp_is_pointwise_order", "cmp_incomparable", "parking_length_mismatch", "parking_range", "generated_are_parking", "parking_count_small"]}
+                "theorems": ["legal_iff", "superstable_iff", "superstable_iff_burn_all", "cmp_is_pointwise_order", "cmp_incomparable", "parking_length_mismatch", "parking_range", "generated_are_parking", "parking_count_small", "superstable_count_eq_det", "card_superstable", "complete_superstable_iff_parking", "parking_iff_counting", "parking_count_all", "complete_reduced_det"]}
 
 # ---- C11
 simple("C11", genhist.gen_orient_hist, 500, 8000,
@@ -805,7 +805,7 @@ PROPS["C15"] = {"generate": c15_generate,
                 "nontrivial": lambda rec: rec["scn"]["n"] >= 2,
                 "level": "proof",
                 "rule": "graphs, divisors (magnitudes up to 10^30, also results of CFLaplacian.apply), partial/full orientations, sparse/dense scripts with plain, Unicode, long, blank-containing, digit-like and hostile names; dict (through json text), JSON file and TXT file round trips compared observationally with the original; fault enumeration per written file: byte-prefix truncations (quick: 64 evenly spaced + last 16; thorough: all) and single-byte corruptions (quick 48 random; thorough every position x 3 values): must not raise, JSON proper prefixes must read None, anything returned must be a well-formed object; missing files read None",
-                "theorems": ["graph_dict_roundtrip", "edge_list_canonical", "divisor_dict_roundtrip", "script_dict_roundtrip", "decimal_roundtrip"]}
+                "theorems": ["graph_dict_roundtrip", "edge_list_canonical", "divisor_dict_roundtrip", "script_dict_roundtrip", "decimal_roundtrip", "orientation_dict_roundtrip"]}
 
 
 # ---- C19
@@ -894,4 +894,4 @@ PROPS["C19"] = {"generate": c19_generate, "judge": c19_judge, "group_judge": c19
                 "nontrivial": lambda rec: (rec["scn"]["op"] == "bounds" and rec["scn"]["n"] >= 3) or rec["scn"]["op"] == "gonality" or (rec["scn"]["op"] == "closed" and (rec["scn"]["arg"] if isinstance(rec["scn"]["arg"], int) else sum(rec["scn"]["arg"])) >= 2),
                 "lean_targets": ["ChipFiring.Properties.C19"], "lean_targets_thorough": ["ChipFiring.Properties.C19Heavy"], "leanchecker_modules": ["ChipFiring.Properties.C19"],
                 "rule": "bounds report and independence number on every connected simple graph with n<=4 (quick) / 5 (thorough) labelled vertices plus generated families up to n=5/6, each compared with the model's report and bracketed against the true gonality found by the verified search; closed forms for n in -1..8 and every part vector with sum <= 6/7, the multipartite and K_n forms compared with the true gonality of the generated graph; the exact table entries of the regenerated tetrahedron, octahedron and cube compared with the library's own gonality() and with the verified search",
-                "theorems": ["complete_graph_closed_form", "multipartite_closed_form", "parking_count_closed_form", "solid_counts", "certified_is_gonality", "complete_graph_gonality_all", "complete_graph_gonality_any", "completeEdges_isComplete", "tetrahedron_exact", "octahedron_exact", "complete_graph_gonality_small", "multipartite_formula_wrong", "independence_is_max"]}
+                "theorems": ["complete_graph_closed_form", "multipartite_closed_form", "parking_count_closed_form", "solid_counts", "certified_is_gonality", "complete_graph_gonality_all", "complete_graph_gonality_any", "completeEdges_isComplete", "bounds_upper_valid", "independence_attained", "tetrahedron_exact", "octahedron_exact", "complete_graph_gonality_small", "multipartite_formula_wrong", "independence_is_max"]}
